@@ -27,6 +27,8 @@ type spec struct {
 	// next to leaf boundaries and a 3% sample of the rest (quick tier, big
 	// trees); "" = everything
 	Probe string `json:"probe,omitempty"`
+	// Mem, if set, makes the case a script on ONE in-memory tree value (see mem.go)
+	Mem *memSpec `json:"mem,omitempty"`
 }
 
 func (s spec) kind() string {
@@ -40,6 +42,9 @@ func (s spec) id() string {
 	id := fmt.Sprintf("%s/%s/%s/n=%d", s.kind(), s.API, s.Style, s.N)
 	if s.Bad != "" {
 		id += fmt.Sprintf("/%s@%d", s.Bad, s.At)
+	}
+	if s.Mem != nil {
+		id += "/" + s.Mem.String()
 	}
 	return id
 }
@@ -84,6 +89,11 @@ type record struct {
 	MAllV    []int   `json:"mallv"`
 	Size     int     `json:"size"`
 	Sampled  bool    `json:"sampled"`
+	// the in-memory value itself (multi-step cases): its All() and Lookup after the edits
+	Mem   bool  `json:"mem"`
+	VAllK []int `json:"vallk"`
+	VAllV []int `json:"vallv"`
+	VL    []int `json:"vl"`
 }
 
 // observation is everything the harness learned about one case.
@@ -92,8 +102,8 @@ type observation struct {
 	Rec      record
 	Written  []ckey // the keys of the map, ascending
 	Union    []ckey
-	Unreal   int    // gaps without a concrete absent key
-	Absent   int    // absent keys the streaming reader was asked for
+	Unreal   int // gaps without a concrete absent key
+	Absent   int // absent keys the streaming reader was asked for
 	Shape    [][]int
 	RootKind string // "none", "leaf", "inner", "bad"
 	Evals    int
@@ -125,15 +135,22 @@ func vidOf(r pdf.Getter, obj pdf.Object) int {
 	wasRef := false
 	if _, ok := obj.(pdf.Reference); ok {
 		wasRef = true
+		if r == nil {
+			return -3
+		}
 	}
-	nat, err := pdf.Resolve(r, obj)
-	if err != nil {
-		return -3
+	var nat pdf.Object = obj
+	if r != nil {
+		n2, err := pdf.Resolve(r, obj)
+		if err != nil {
+			return -3
+		}
+		nat = n2
 	}
 	vid := -3
 	switch x := nat.(type) {
 	case pdf.Integer:
-		if wasRef {
+		if wasRef || x >= 1_000_000 { // values of in-memory cases are never indirect
 			vid = int(x) - 1_000_000
 			if vid < 0 || vid%5 != 4 {
 				return -3
@@ -181,7 +198,10 @@ type treeAPI[K cmp.Ordered] struct {
 	fromFile func(pdf.Getter, pdf.Object) (reader[K], error)
 	inMemory func(pdf.Getter, pdf.Object) (reader[K], error)
 	size     func(pdf.Getter, pdf.Object) (int, error)
-	notFound error
+	// an in-memory tree value over a given map / extracted from a file, with access to its exported Data
+	newMem     func(map[K]pdf.Object) (reader[K], func() map[K]pdf.Object)
+	extractMem func(pdf.Getter, pdf.Object) (reader[K], func() map[K]pdf.Object, error)
+	notFound   error
 	// decodeKey reads a key object found in the file (generic object API only)
 	decodeKey func(pdf.Getter, pdf.Object) (ckey, bool)
 }
@@ -192,9 +212,24 @@ var nameAPI = treeAPI[pdf.Name]{
 	fromK:    func(k pdf.Name) ckey { return ckey{b: string(k)} },
 	write:    nametree.Write,
 	writeMap: nametree.WriteMap,
-	fromFile: func(r pdf.Getter, root pdf.Object) (reader[pdf.Name], error) { return nametree.ExtractFromFile(r, root) },
-	inMemory: func(r pdf.Getter, root pdf.Object) (reader[pdf.Name], error) { return nametree.ExtractInMemory(r, root) },
-	size:     nametree.Size,
+	fromFile: func(r pdf.Getter, root pdf.Object) (reader[pdf.Name], error) {
+		return nametree.ExtractFromFile(r, root)
+	},
+	inMemory: func(r pdf.Getter, root pdf.Object) (reader[pdf.Name], error) {
+		return nametree.ExtractInMemory(r, root)
+	},
+	size: nametree.Size,
+	newMem: func(m map[pdf.Name]pdf.Object) (reader[pdf.Name], func() map[pdf.Name]pdf.Object) {
+		t := &nametree.InMemory{Data: m}
+		return t, func() map[pdf.Name]pdf.Object { return t.Data }
+	},
+	extractMem: func(r pdf.Getter, root pdf.Object) (reader[pdf.Name], func() map[pdf.Name]pdf.Object, error) {
+		t, err := nametree.ExtractInMemory(r, root)
+		if err != nil || t == nil {
+			return nil, nil, err
+		}
+		return t, func() map[pdf.Name]pdf.Object { return t.Data }, nil
+	},
 	notFound: nametree.ErrKeyNotFound,
 	decodeKey: func(r pdf.Getter, o pdf.Object) (ckey, bool) {
 		nat, err := pdf.Resolve(r, o)
@@ -204,13 +239,28 @@ var nameAPI = treeAPI[pdf.Name]{
 }
 
 var numAPI = treeAPI[pdf.Integer]{
-	leafKey:  "Nums",
-	toK:      func(k ckey) pdf.Integer { return pdf.Integer(k.i) },
-	fromK:    func(k pdf.Integer) ckey { return numKey(int64(k)) },
-	write:    numtree.Write,
-	fromFile: func(r pdf.Getter, root pdf.Object) (reader[pdf.Integer], error) { return numtree.ExtractFromFile(r, root) },
-	inMemory: func(r pdf.Getter, root pdf.Object) (reader[pdf.Integer], error) { return numtree.ExtractInMemory(r, root) },
-	size:     numtree.Size,
+	leafKey: "Nums",
+	toK:     func(k ckey) pdf.Integer { return pdf.Integer(k.i) },
+	fromK:   func(k pdf.Integer) ckey { return numKey(int64(k)) },
+	write:   numtree.Write,
+	fromFile: func(r pdf.Getter, root pdf.Object) (reader[pdf.Integer], error) {
+		return numtree.ExtractFromFile(r, root)
+	},
+	inMemory: func(r pdf.Getter, root pdf.Object) (reader[pdf.Integer], error) {
+		return numtree.ExtractInMemory(r, root)
+	},
+	size: numtree.Size,
+	newMem: func(m map[pdf.Integer]pdf.Object) (reader[pdf.Integer], func() map[pdf.Integer]pdf.Object) {
+		t := &numtree.InMemory{Data: m}
+		return t, func() map[pdf.Integer]pdf.Object { return t.Data }
+	},
+	extractMem: func(r pdf.Getter, root pdf.Object) (reader[pdf.Integer], func() map[pdf.Integer]pdf.Object, error) {
+		t, err := numtree.ExtractInMemory(r, root)
+		if err != nil || t == nil {
+			return nil, nil, err
+		}
+		return t, func() map[pdf.Integer]pdf.Object { return t.Data }, nil
+	},
 	notFound: numtree.ErrKeyNotFound,
 	decodeKey: func(r pdf.Getter, o pdf.Object) (ckey, bool) {
 		nat, err := pdf.Resolve(r, o)
@@ -280,9 +330,30 @@ func observeK[K cmp.Ordered](s spec, api treeAPI[K]) (*observation, error) {
 	if !ok {
 		return nil, nil // the abstract case has no concrete counterpart for this key style
 	}
+	return examine(s, api, caseInput{written: written, vids: vids, input: input, probes: probes, gapOf: gapOf, unreal: unreal}, nil)
+}
+
+// caseInput is the concrete input of one write: the map (written, vids), the
+// sequence the iterator yields (Write only) and the absent probes.
+type caseInput struct {
+	written []ckey
+	vids    map[ckey]int
+	input   []ckey
+	probes  []ckey
+	gapOf   []int
+	unreal  int
+}
+
+// examine performs one write into a real file and everything that is
+// recorded about it.  memVal, if not nil, is the in-memory tree value the tree
+// is written from (api "InMemory": Write(w, memVal.All())); its own All() and
+// Lookup are recorded as well.
+func examine[K cmp.Ordered](s spec, api treeAPI[K], in caseInput, memVal reader[K]) (*observation, error) {
+	written, vids, input, probes, gapOf, unreal := in.written, in.vids, in.input, in.probes, in.gapOf, in.unreal
 	ob := &observation{Spec: s, Written: written, Unreal: unreal, RootKind: "none"}
 	rec := &ob.Rec
 	rec.ID, rec.Kind, rec.API = s.id(), s.kind(), s.API
+	rec.VAllK, rec.VAllV, rec.VL = []int{}, []int{}, []int{}
 
 	// --- write a real file
 	var buf bytes.Buffer
@@ -308,16 +379,35 @@ func observeK[K cmp.Ordered](s spec, api treeAPI[K]) (*observation, error) {
 		return ref
 	}
 	objs := map[ckey]pdf.Object{}
-	for k, vid := range vids {
-		objs[k] = valueObj(vid, indirect)
+	if memVal == nil {
+		for k, vid := range vids {
+			objs[k] = valueObj(vid, indirect)
+		}
 	}
 	if putErr != nil {
 		return nil, putErr
 	}
 
+	// the in-memory value's own enumeration, before it is written
+	type ans struct {
+		keys []ckey
+		vals []int
+	}
+	var vall ans
+	if memVal != nil {
+		rec.Mem = true
+		for k, v := range memVal.All() {
+			vall.keys = append(vall.keys, api.fromK(k))
+			vall.vals = append(vall.vals, vidOf(nil, v))
+		}
+		ob.Evals++
+	}
+
 	var rootRef pdf.Reference
 	var werr error
 	switch s.API {
+	case "InMemory":
+		rootRef, werr = api.write(w, memVal.All())
 	case "WriteMap":
 		if api.writeMap == nil || s.Bad != "" {
 			return nil, fmt.Errorf("WriteMap not applicable to %s", s.id())
@@ -390,10 +480,6 @@ func observeK[K cmp.Ordered](s spec, api treeAPI[K]) (*observation, error) {
 	}
 
 	// --- the real readers
-	type ans struct {
-		keys []ckey
-		vals []int
-	}
 	var all, mall ans
 	var ff, mem reader[K]
 	if werr == nil {
@@ -431,7 +517,7 @@ func observeK[K cmp.Ordered](s spec, api treeAPI[K]) (*observation, error) {
 			union = append(union, k)
 		}
 	}
-	for _, ks := range [][]ckey{input, probes, all.keys, mall.keys} {
+	for _, ks := range [][]ckey{written, input, probes, all.keys, mall.keys, vall.keys} {
 		for _, k := range ks {
 			addKey(k)
 		}
@@ -484,6 +570,21 @@ func observeK[K cmp.Ordered](s spec, api treeAPI[K]) (*observation, error) {
 		rec.Root = 1
 	}
 	rec.AllK, rec.AllV, rec.MAllK, rec.MAllV = ranks(all.keys), nn(all.vals), ranks(mall.keys), nn(mall.vals)
+	if memVal != nil {
+		rec.VAllK, rec.VAllV = ranks(vall.keys), nn(vall.vals)
+		for _, k := range union {
+			v, err := memVal.Lookup(api.toK(k))
+			switch {
+			case err == nil:
+				rec.VL = append(rec.VL, vidOf(nil, v))
+			case errors.Is(err, api.notFound):
+				rec.VL = append(rec.VL, -1)
+			default:
+				rec.VL = append(rec.VL, -2)
+			}
+		}
+		ob.Evals += len(union)
+	}
 
 	// --- Lookup for every key of the union (present keys and absent probes)
 	rec.LK, rec.ML = []int{}, []int{}
